@@ -208,6 +208,21 @@ fn do_resolve<Fd: AsFd, P: AsRef<Path>>(
             })?,
     );
 
+    // A path with an interior NUL byte can never be handed to the kernel; the
+    // openat2 backend refuses it as a whole with EINVAL, so we cannot walk the
+    // components in front of the NUL byte first.
+    if path.as_ref().as_os_str().as_bytes().contains(&b'\0') {
+        return Ok(PartialLookup::Partial {
+            handle: root,
+            remaining: path.as_ref().to_path_buf(),
+            last_error: ErrorImpl::OsError {
+                operation: "emulated path resolution of a path containing a NUL byte".into(),
+                source: IOError::from_raw_os_error(libc::EINVAL),
+            }
+            .into(),
+        });
+    }
+
     // openat2(2) refuses to resolve an empty path (-ENOENT), and we need to
     // match that rather than treating it as a reference to the root.
     if path.as_ref().as_os_str().is_empty() {
